@@ -287,5 +287,7 @@ func TestC13(t *testing.T) {
 		c.Case(false, "", "directed:short-destination")
 	}
 
+	c13Structured(c, t)
+
 	c13Concurrent(c, t)
 }
